@@ -45,7 +45,10 @@ dc_name = z3.Function("dc_field_name", Cls, IntS, Val)
 hint_n = z3.Function("hints_n", Cls, IntS)
 hint_name = z3.Function("hint_name", Cls, IntS, Val)
 slot_n = z3.Function("slots_n", Cls, IntS)
-slot_name = z3.Function("slot_name", Cls, IntS, Val)
+slot_name = z3.Function("slot_name", Cls, IntS, Val)       # the distinct slot names of the hierarchy, base first
+slot_decl_n = z3.Function("slot_declarations_n", Cls, IntS)
+slot_decl = z3.Function("slot_declaration", Cls, IntS, Val)    # every declaration (a subclass may repeat a base's slot)
+has_dict = z3.Function("instance_has___dict__", Val, BoolS)
 vars_n = z3.Function("vars_n", Val, IntS)
 vars_key = z3.Function("vars_key", Val, IntS, Val)
 vars_val = z3.Function("vars_val", Val, IntS, Val)
@@ -294,6 +297,17 @@ def make_interp():
         getattr_model(I, p, a, k))
     I.builtin_models[B.vars] = lambda I, path, a, k: VarsDict(to_val(a[0]))
 
+    def getattr_default(I, path, obj, name, default):
+        # getattr(x, "__dict__", <default>): the instance dict (what vars(x) returns) when there is one
+        if isinstance(obj, SV) and name == "__dict__":
+            if path.branch(has_dict(obj.t)):
+                return VarsDict(obj.t)
+            if isinstance(default, dict) and not default:
+                return VarsDict(obj.t)      # an empty dict: exactly vars() of an instance without __dict__ (vars_n == 0, axiom below)
+            return default
+        return _MISSING
+    I.hooks["getattr_default"] = getattr_default
+
     # ---- the two name lists of _make_fields_iterator that are not single-source comprehensions, taken by contract for exactly these
     # expressions: the annotated names that are public and not ClassVar (inspection.isclassvartype per hint), and the public slot
     # names declared along the hierarchy, base first (slot_n / slot_name now stand for that whole list; `_slotnames` reads one
@@ -305,10 +319,27 @@ def make_interp():
                            lambda i, c=c: SV(hint_name(c, to_int(i))))
 
     def slots_contract(I, env, path):
+        # the *declarations* along the hierarchy, base first - a subclass may declare a slot of its base again, so a name can
+        # occur more than once here; the fields of the instance are the distinct names (slot_n / slot_name), see fromkeys below
         c = I.cls_term(env.lookup("tp"))
-        I.assumed_used.add("[s for c in reversed(tp.__mro__) for s in _slotnames(c)]: the slot names declared along the hierarchy, base first")
-        return FilteredSeq(("slots", None), slot_n(c), lambda i, c=c: z3.Not(private(slot_name(c, to_int(i)))),
-                           lambda i, c=c: SV(slot_name(c, to_int(i))))
+        I.assumed_used.add("[s for c in reversed(tp.__mro__) for s in _slotnames(c)]: the slot declarations along the hierarchy, base first (repeats possible)")
+        fs = FilteredSeq(("slot-declarations", None), slot_decl_n(c), lambda i, c=c: z3.Not(private(slot_decl(c, to_int(i)))),
+                         lambda i, c=c: SV(slot_decl(c, to_int(i))))
+        fs.cls = c
+        return fs
+
+    def fromkeys(I, path, a, k):
+        # dict.fromkeys(names): keeps the first occurrence of every name, in order - applied to the slot declarations it is the
+        # list of distinct slot names (that list is what slot_n / slot_name denote)
+        if len(a) == 1 and isinstance(a[0], FilteredSeq) and a[0].src_id == ("slot-declarations", None):
+            c = a[0].cls
+            I.assumed_used.add("dict.fromkeys(names) keeps the first occurrence of each name in order; iterating / list() of it yields those names")
+            return FilteredSeq(("slots", None), slot_n(c), lambda i, c=c: z3.Not(private(slot_name(c, to_int(i)))),
+                               lambda i, c=c: SV(slot_name(c, to_int(i))))
+        return _MISSING
+    I.builtin_models[dict.fromkeys] = fromkeys
+    prev_list = I.builtin_models.get(B.list)
+    I.builtin_models[B.list] = lambda I, p, a, k: a[0] if len(a) == 1 and isinstance(a[0], FilteredSeq) else (prev_list(I, p, a, k) if prev_list else _MISSING)
     I.expr_contracts = {
         "[k for k, hint in attribs.items() if not k.startswith('_') and (not inspection.isclassvartype(hint))]": hints_contract,
         "[s for c in reversed(tp.__mro__) for s in _slotnames(c) if not s.startswith('_')]": slots_contract,
@@ -510,6 +541,7 @@ def any_pub_axioms(x):
         w_ = wit[k](x)
         ax.append(z3.Implies(any_pub[k](x), z3.And(w_ >= 0, w_ < n, is_field(k, x, w_))))
         ax.append(n >= 0)
+    ax.append(z3.Implies(z3.Not(has_dict(x)), vars_n(x) == 0))      # vars() of an instance without __dict__: nothing
     return ax
 
 
